@@ -43,3 +43,27 @@ def ofOptNat : Option Nat → Json
   | some n => jnat n
 
 end TDV.Drv
+
+namespace TDV.Drv
+open Lean
+
+def answerWith (h : Json → Except String Json) (line : String) : Json :=
+  match Json.parse line with
+  | .error e => Json.mkObj [("error", Json.str s!"parse: {e}")]
+  | .ok j =>
+    match h j with
+    | .ok r => r
+    | .error e => Json.mkObj [("error", Json.str e)]
+
+partial def mainLoopAux (h : Json → Except String Json) (inp : IO.FS.Stream) : IO Unit := do
+  let line ← inp.getLine
+  if line.isEmpty then return ()
+  if line.trimAscii.toString.isEmpty then mainLoopAux h inp else
+  IO.println (answerWith h line).compress
+  mainLoopAux h inp
+
+/-- One JSON request per stdin line, one JSON answer per stdout line. A per-model main file is
+`import TorchDataVerif.Drv.X` + `def main : IO Unit := TDV.Drv.mainLoop TDV.Drv.X.handle`. -/
+def mainLoop (h : Json → Except String Json) : IO Unit := do mainLoopAux h (← IO.getStdin)
+
+end TDV.Drv
